@@ -132,6 +132,9 @@ pub enum WireFault {
     RawPk { delta: i32, cseed: u64 },
     /// signature made by the independent model with the RFC checksum shift
     ModelMade,
+    /// a chain of `n` well-formed signed-public-key elements (the bottom LMS signature followed by the
+    /// top-level LMS public key), then the bottom LMS signature: parses as deep as the parser allows
+    Chain { n: u32, adjust_pk: bool },
 }
 
 #[derive(Serialize, Deserialize, Clone, Debug, PartialEq, Eq, Hash)]
